@@ -41,12 +41,19 @@ def rust_ident(s):
 
 
 def source(ident, rules, positions):
+    """per rule: the identifier as a field / as a variant, and (MC_C16!Spellings) the same written as a raw identifier r#ident,
+    which serde reads with the prefix removed"""
     out = []
+    raw = ident not in UNRAWABLE and not ident.startswith("r#")
     for i, r in enumerate(rules):
         if "field" in positions:
             out.append(f'#[typeshare]\n#[serde(rename_all = "{r}")]\npub struct S{i} {{ pub {rust_ident(ident)}: u32 }}\n')
+            if raw:
+                out.append(f'#[typeshare]\n#[serde(rename_all = "{r}")]\npub struct R{i} {{ pub r#{ident}: u32 }}\n')
         if "variant" in positions:
             out.append(f'#[typeshare]\n#[serde(rename_all = "{r}")]\npub enum E{i} {{ {rust_ident(ident)} }}\n')
+            if raw:
+                out.append(f'#[typeshare]\n#[serde(rename_all = "{r}")]\npub enum Q{i} {{ r#{ident} }}\n')
     return "".join(out)
 
 
@@ -56,15 +63,15 @@ def observe(res, rules):
     pd = (res.get("parsed") or {}).get("", {})
     for s in pd.get("structs", []):
         i = int(s["id"]["original"][1:])
-        obs[("field", rules[i])] = s["fields"][0]["id"]["renamed"]
+        obs[("field" + ("+raw" if s["id"]["original"][0] == "R" else ""), rules[i])] = s["fields"][0]["id"]["renamed"]
     for e in pd.get("enums", []):
         i = int(e["id"]["original"][1:])
-        obs[("variant", rules[i])] = e["variants"][0]["id"]["renamed"]
+        obs[("variant" + ("+raw" if e["id"]["original"][0] == "Q" else ""), rules[i])] = e["variants"][0]["id"]["renamed"]
     return obs
 
 
 def features(ident, pos="", rule=""):
-    if pos == "field" and rule in SNAKE_FAMILY and any(c.isupper() for c in ident):
+    if pos.startswith("field") and rule in SNAKE_FAMILY and any(c.isupper() for c in ident):
         # serde never splits words in field position; for this family the only abstract feature that
         # matters is "contains an uppercase letter" (see DESIGN.md, C16)
         return "has-uppercase"
@@ -143,6 +150,11 @@ def run_idents(chk, cases, predict=None):
         obs = {} if panicked else observe(res, rules)
         for r in rules:
             for pos in positions:
+                if (pos + "+raw", r) in obs:          # the raw spelling: same requirement as for the plain identifier
+                    # the spelling is named in the signature only when it is necessary: the plain spelling conforms
+                    plain_bad = panicked or obs.get((pos, r)) != exp[pos][r]
+                    judge_one(chk, ident, pos if plain_bad else pos + "+raw", r, exp[pos][r], obs[(pos + "+raw", r)], False)
+                    events.append({"pos": pos, "rule": r, "ident": toks(ident), "panic": False, "obs": toks(obs[(pos + "+raw", r)]), "raw": True})
                 o = obs.get((pos, r))
                 judge_one(chk, ident, pos, r, exp[pos][r], o, panicked)
                 p = (predict or {}).get(ident, {}).get(pos, {}).get(r)
